@@ -81,6 +81,35 @@ def Script.popResult (s : Script) : Option Nat × Script :=
   | [] => (none, s)
   | r :: rest => (r, { s with results := rest })
 
+/-! ### `helpers.resolvconf_nameservers` (helpers.py:67-116): line → words → accept rule -/
+
+/-- What `str.split()` treats as a separator (ASCII): space, TAB, VT, FF, FS..US.  CR and LF
+never reach a word: the file is read in universal-newline mode, so both end a line. -/
+def isSpace (b : Nat) : Bool := b = 32 || b = 9 || b = 11 || b = 12 || (28 ≤ b && b ≤ 31)
+
+/-- Split at every byte satisfying `sep`, dropping empty pieces (`str.split()` without argument). -/
+def splitOnP (sep : Nat → Bool) : Bytes → Bytes → List Bytes
+  | [], cur => if cur.isEmpty then [] else [cur]
+  | b :: rest, cur =>
+    if sep b then (if cur.isEmpty then splitOnP sep rest [] else cur :: splitOnP sep rest [])
+    else splitOnP sep rest (cur ++ [b])
+
+/-- `line.lower()` on ASCII. -/
+def lowerByte (b : Nat) : Nat := if 65 ≤ b ∧ b ≤ 90 then b + 32 else b
+
+def kwNameserver : Bytes := [110, 97, 109, 101, 115, 101, 114, 118, 101, 114]   -- "nameserver"
+
+/-- `if len(words) >= 2 and words[0] == 'nameserver': …append(family_ip_tuple(words[1]))`:
+whatever follows the address on the line is ignored. -/
+def nsOfWords : List Bytes → Option Bytes
+  | kw :: addr :: _ => if kw = kwNameserver then some addr else none
+  | _ => none
+
+/-- The name servers a resolv.conf text yields, in file order. -/
+def parseResolvConf (text : Bytes) : List Bytes :=
+  (splitOnP (fun b => b = 10 || b = 13) text []).filterMap fun line =>
+    nsOfWords (splitOnP isSpace (line.map lowerByte) [])
+
 def localhost : Bytes := [49, 50, 55, 46, 48, 46, 48, 46, 49]   -- "127.0.0.1"
 
 /-- `get_random_nameserver()`: any element of the list (the script says which), else
